@@ -90,7 +90,7 @@ def per_sample(B, G, kind, n, h, a, strings, outcomes=None):
     rows = C.space_rows(n)
     if outcomes is not None:
         rows = [rows[i] for i in outcomes]
-    tol = 2e-5
+    tol = 1e-6
     for bs in strings:
         basis = list(bs)
         for row in rows:
@@ -170,7 +170,7 @@ def batch(B, G, kind, n, h, a, data, bases):
             G.eq("mean[%s][%d]" % (net, k), pv[k] * N, gv[k])
             ref = dref[k] if dref[k] is not None else O.frac(0)
             if exact is not None:
-                G.eq("negative_phase_is_dlogZ[%s][%d]" % (net, k), B.scalars(exact[ni]).reshape(-1)[k] - pv[k], ref, tol=2e-5)
+                G.eq("negative_phase_is_dlogZ[%s][%d]" % (net, k), B.scalars(exact[ni]).reshape(-1)[k] - pv[k], ref, tol=1e-6)
             if exact2 is not None:
                 G.eq("exact_grads_alias[%s][%d]" % (net, k), B.scalars(exact2[ni]).reshape(-1)[k], B.scalars(exact[ni]).reshape(-1)[k] if exact is not None else ref)
     if exact is not None:
